@@ -1117,5 +1117,9 @@ pub fn miri_cross_run(ctx: &mut Ctx, env: &Env, prop_id: &str, plan: &[MiriPlan]
         }
     }
     ctx.add("miri/wall_s", t0.elapsed().as_secs());
+    if ctx.counters.get("miri/ops").copied().unwrap_or(0) == 0 {
+        // the interpreter ran but finished nothing: the cross-run says nothing
+        ctx.inconclusive("miri:no-operation-completed");
+    }
     let _ = std::fs::remove_dir_all(&dir);
 }
